@@ -126,3 +126,50 @@ Section Local.
     intros H. apply (f_equal (@length byte)) in H. rewrite app_length, drop_length in H. lia.
   Qed.
 End Local.
+
+(* ---- the composition for real backends: encode -> draw the nonce -> seal -> Display -> FromStr -> unseal ->
+        decode -> validate returns the claims and footer that went in, for every codec that round-trips the
+        values at hand, every key, footer, assertion and every 32 bytes the source serves ---- *)
+Section EndToEnd.
+  Variable O : oracle.
+  Hypothesis L : laws O.
+  Context {Claims Foot : Type}.
+  Variable m_suffix : bytes.
+  Variable m_encode : Claims -> option bytes.
+  Variable m_decode : bytes -> option Claims.
+  Variable f_encode : Foot -> option bytes.
+  Variable f_decode : bytes -> option Foot.
+  Variable validate : Claims -> result unit.
+
+  Theorem v4_local_end_to_end draw hdr pur key c fv aad r body fb :
+    draw_exact draw -> draw 32 = Some r ->
+    m_encode c = Some body -> m_decode body = Some c -> f_encode fv = Some fb -> f_decode fb = Some fv ->
+    validate c = Ok tt ->
+    exists tok,
+      seal (v4_local_seal O) m_suffix m_encode f_encode key c fv aad (v4_local_nonce draw) = Ok tok /\
+      parse_token f_decode hdr m_suffix pur (print_token hdr m_suffix pur tok) = Ok (tok, fv) /\
+      fst (unseal (v4_local_unseal O) m_suffix m_decode validate key tok fv aad) = Ok (c, fv).
+  Proof.
+    intros Hd Hr He Hde Hfe Hfd Hv.
+    destruct (v4_local_api_roundtrip O L draw key m_suffix body fb aad r Hd Hr) as (n & Hn & p & Hs & Hu).
+    rewrite Hn.
+    exact (pipeline_roundtrip (v4_local_unseal O) (v4_local_seal O) m_suffix m_encode m_decode f_encode f_decode validate
+             hdr pur key key c fv aad n body fb p He Hde Hfe Hfd Hv Hs Hu).
+  Qed.
+
+  Theorem lc_local_end_to_end draw hdr pur key c fv aad r body fb :
+    draw_exact draw -> draw 32 = Some r ->
+    m_encode c = Some body -> m_decode body = Some c -> f_encode fv = Some fb -> f_decode fb = Some fv ->
+    validate c = Ok tt ->
+    exists tok,
+      seal (lc_local_seal O) m_suffix m_encode f_encode key c fv aad (lc_local_nonce draw) = Ok tok /\
+      parse_token f_decode hdr m_suffix pur (print_token hdr m_suffix pur tok) = Ok (tok, fv) /\
+      fst (unseal (lc_local_unseal O) m_suffix m_decode validate key tok fv aad) = Ok (c, fv).
+  Proof.
+    intros Hd Hr He Hde Hfe Hfd Hv.
+    destruct (lc_local_api_roundtrip O L draw key m_suffix body fb aad r Hd Hr) as (n & Hn & p & Hs & Hu).
+    rewrite Hn.
+    exact (pipeline_roundtrip (lc_local_unseal O) (lc_local_seal O) m_suffix m_encode m_decode f_encode f_decode validate
+             hdr pur key key c fv aad n body fb p He Hde Hfe Hfd Hv Hs Hu).
+  Qed.
+End EndToEnd.
